@@ -407,7 +407,13 @@ func (ex *Exec) valuesEqual(a, b Value) *Term {
 			return ex.ts.Bool(false)
 		}
 		if x.T == nil || y.T == nil {
-			return ex.ts.Bool(x.T == nil && y.T == nil && x.V == nil && y.V == nil)
+			if x.T == nil && y.T == nil {
+				if x.V == nil || y.V == nil {
+					return ex.ts.Bool(x.V == nil && y.V == nil)
+				}
+				return ex.valuesEqual(x.V, y.V) // modelled environment values (contexts, opaque errors)
+			}
+			return ex.ts.Bool(false)
 		}
 		if !types.Identical(x.T, y.T) {
 			return ex.ts.Bool(false)
